@@ -80,7 +80,8 @@ def cases(draw):
                       "base": draw(st.sampled_from(impl.DRAFTS)),
                       "id": draw(st.sampled_from(["http://verif.test/meta-a#", "http://verif.test/meta-b",
                                                   "http://verif.test/meta-c#", IDS[4], "urn:verif:meta"])),
-                      "idkw": draw(st.sampled_from(["$id", "id"]))})
+                      "idkw": draw(st.sampled_from(["$id", "id"])),
+                      "version": draw(st.sampled_from(["verif-a", "verif-b", "verif-a", None]))})
     return {"mode": mode, "steps": steps}
 
 
@@ -305,7 +306,8 @@ class C20(Prop):
             meta[st_["idkw"]] = st_["id"]
             registered_id = st_["id"] if st_["idkw"] == own_idkw else ""
             how = st_["how"]
-            version = "verif-%d" % n
+            # version names are reused on purpose: re-registering a NAME must not disturb the ids registered before
+            version = st_.get("version") or "verif-%d" % n
             if how == "validates":
                 new = V.create(meta_schema=meta, validators=dict(base.VALIDATORS), type_checker=base.TYPE_CHECKER,
                                id_of=base.ID_OF)
